@@ -1,12 +1,499 @@
-//! C16: not yet implemented
+//! C16: auxiliary asset decoders (cmp, tera, empty lgb, pbd, sklb/Havok tag files).
+//! Cases are abstract records; the Lean driver encodes them with the `Spec/` encoders and the
+//! `run` stage feeds the resulting bytes to the real Physis readers / writers.
 #![allow(unused)]
 use crate::util::*;
 use std::io::Write;
 
-pub fn generate(thorough: bool, seed: u64, out: &mut dyn Write) {}
+// ------------------------------------------------------------------------------------------
+// generators
+// ------------------------------------------------------------------------------------------
+
+fn f32_edge(rng: &mut Rng) -> u32 {
+    match rng.below(10) {
+        0 => 0,
+        1 => 0x8000_0000,
+        2 => 0x3F80_0000,
+        3 => 0x7FC0_0000,
+        4 => 0x7F80_0000,
+        5 => 0xFF80_0000,
+        6 => rng.below(0x0080_0000) as u32, // subnormal
+        _ => rng.next() as u32,
+    }
+}
+
+fn coord_edge(rng: &mut Rng) -> u16 {
+    match rng.below(10) {
+        0 => 0,
+        1 => 1,
+        2 => 0xFFFF,
+        3 => 0x7FFF,
+        4 => 0x8000,
+        5 => 0x8001,
+        6 => rng.below(64) as u16,
+        7 => (0x10000 - rng.range(1, 64)) as u16,
+        _ => rng.next() as u16,
+    }
+}
+
+fn join<T: ToString>(v: &[T], sep: &str) -> String {
+    if v.is_empty() {
+        "-".to_string()
+    } else {
+        v.iter().map(|x| x.to_string()).collect::<Vec<_>>().join(sep)
+    }
+}
+
+fn gen_cmp(rng: &mut Rng, out: &mut dyn Write, n: usize) {
+    for i in 0..n {
+        let pat_len = rng.range(0, 8) as usize;
+        let pat = rng.bytes(pat_len);
+        let nrows = match i {
+            0 => 0,
+            1 => 1,
+            _ => match rng.below(4) {
+                0 => rng.range(0, 3),
+                1 => rng.range(30, 60),
+                _ => rng.range(1, 40), // the game file has 40-odd rows
+            },
+        } as usize;
+        let rows: Vec<String> = (0..nrows)
+            .map(|_| join(&(0..14).map(|_| f32_edge(rng)).collect::<Vec<_>>(), ","))
+            .collect();
+        let tail_len = match rng.below(4) {
+            0 => 0,
+            1 => 55,
+            _ => rng.range(0, 55),
+        } as usize;
+        let tail = rng.bytes(tail_len);
+        writeln!(out, "cmp {} {} {}", hex(&pat), join(&rows, ";"), hex(&tail)).unwrap();
+    }
+}
+
+fn positions(rng: &mut Rng, n: usize) -> String {
+    let v: Vec<String> = (0..n).map(|_| format!("{}:{}", coord_edge(rng), coord_edge(rng))).collect();
+    join(&v, ",")
+}
+
+/// plate sizes whose products with every (2c+1)/2 are exactly representable: k·2^j, k odd ≤ 255
+fn plate_size(rng: &mut Rng) -> u32 {
+    match rng.below(10) {
+        0..=4 => 128,
+        5 => 0,
+        6 => 1,
+        _ => {
+            let k = rng.below(128) * 2 + 1; // odd, at most 8 bits
+            let bits = 64 - k.leading_zeros() as u64;
+            let j = rng.below(32 - bits + 1);
+            (k << j) as u32
+        }
+    }
+}
+
+fn gen_tera(rng: &mut Rng, out: &mut dyn Write, thorough: bool) {
+    // every i16 coordinate, as x and as y (exhaustive over the plate grid), for reader, writer and both
+    let chunk = 1024u32;
+    for op in ["tera_parse 16777219 128 0 1065353216", "tera_rt", "tera_write"] {
+        for base in (0..65536u32).step_by(chunk as usize) {
+            let v: Vec<String> = (base..base + chunk).map(|c| format!("{}:{}", c, 65535 - c)).collect();
+            writeln!(out, "{} {}", op, v.join(",")).unwrap();
+        }
+    }
+    let n = if thorough { 20_000 } else { 600 };
+    for i in 0..n {
+        let cnt = match rng.below(12) {
+            0 => 0,
+            1 => 1,
+            2 => rng.range(200, 3000),
+            _ => rng.range(1, 40),
+        } as usize;
+        match i % 5 {
+            0 | 1 => writeln!(
+                out,
+                "tera_parse {} {} {} {} {}",
+                rng.u32_edge(),
+                plate_size(rng),
+                f32_edge(rng),
+                f32_edge(rng),
+                positions(rng, cnt)
+            )
+            .unwrap(),
+            2 => writeln!(out, "tera_rt {}", positions(rng, cnt)).unwrap(),
+            3 => writeln!(out, "tera_write {}", positions(rng, cnt)).unwrap(),
+            _ => {
+                // float-model conformance: arbitrary positions handed to the writer
+                let v: Vec<String> = (0..cnt.min(64).max(1))
+                    .map(|_| format!("{}:{}", wany(rng), wany(rng)))
+                    .collect();
+                writeln!(out, "tera_wany {}", v.join(",")).unwrap()
+            }
+        }
+    }
+}
+
+/// positions for the writer: specials, values around (k + 0.5)·128 ± a few ulp, around the i16 limits
+fn wany(rng: &mut Rng) -> u32 {
+    match rng.below(6) {
+        0 => f32_edge(rng),
+        1 | 2 => {
+            let k = rng.range(0, 70000) as i64 - 35000;
+            let v = (k as f32 + 0.5) * 128.0;
+            let b = v.to_bits() as i64 + rng.range(0, 6) as i64 - 3;
+            b as u32
+        }
+        3 => {
+            let k = rng.range(0, 70000) as i64 - 35000;
+            let v = k as f32 * 128.0 + rng.below(128) as f32;
+            v.to_bits()
+        }
+        4 => {
+            // tiny and huge magnitudes
+            let e = *rng.pick(&[0u32, 1, 2, 100, 120, 126, 127, 133, 140, 141, 142, 143, 150, 200, 254]);
+            ((rng.below(2) as u32) << 31) | (e << 23) | (rng.below(1 << 23) as u32)
+        }
+        _ => rng.next() as u32,
+    }
+}
+
+fn ascii_name(rng: &mut Rng, n: usize) -> Vec<u8> {
+    (0..n)
+        .map(|_| match rng.below(6) {
+            0 => rng.range(1, 127) as u8,
+            1 => rng.range(b'A' as u64, b'Z' as u64) as u8,
+            2 => *rng.pick(&[b'_', b' ', b'/', b'.', 0x7f, 0x01]),
+            _ => rng.range(b'a' as u64, b'z' as u64) as u8,
+        })
+        .collect()
+}
+
+fn gen_layer(rng: &mut Rng, out: &mut dyn Write, n: usize) {
+    // the repository's sample: LGB1 / LGP1 / 261 / "PlanLive"
+    for op in ["layer_parse", "layer_write", "layer_rt"] {
+        writeln!(out, "{} {} {} 261 {}", op, 0x3142474cu32, 0x3150474cu32, hex(b"PlanLive")).unwrap();
+    }
+    for i in 0..n {
+        let len = match rng.below(10) {
+            0 => 0,
+            1 => 1,
+            2 => rng.range(100, 2000),
+            _ => rng.range(1, 40),
+        } as usize;
+        let name = ascii_name(rng, len);
+        let op = ["layer_parse", "layer_write", "layer_rt"][i % 3];
+        let file_id = if rng.chance(1, 2) { 0x3142474c } else { rng.u32_edge() };
+        let chunk_id = if rng.chance(1, 2) { 0x3150474c } else { rng.u32_edge() };
+        writeln!(out, "{} {} {} {} {}", op, file_id, chunk_id, rng.u32_edge(), hex(&name)).unwrap();
+    }
+}
+
+
+/// a random forest of `n` body ids: abstract item / link tables with a random link permutation
+fn gen_pbd(rng: &mut Rng, out: &mut dyn Write, n_files: usize) {
+    for fi in 0..n_files {
+        let n = match rng.below(8) {
+            0 => 1,
+            1 => 2,
+            2 => rng.range(13, 30),
+            _ => rng.range(2, 12),
+        } as usize;
+        // parent item of every item (None = root); item 0 is always a root; acyclic by construction
+        let parent: Vec<Option<usize>> = (0..n)
+            .map(|i| if i == 0 || rng.chance(1, 5) { None } else { Some(rng.below(i as u64) as usize) })
+            .collect();
+        // item order in the file and link order are independent permutations
+        let mut item_pos: Vec<usize> = (0..n).collect();
+        let mut link_pos: Vec<usize> = (0..n).collect();
+        if rng.chance(2, 3) {
+            for i in (1..n).rev() {
+                item_pos.swap(i, rng.below(i as u64 + 1) as usize);
+                link_pos.swap(i, rng.below(i as u64 + 1) as usize);
+            }
+        }
+        let mut ids: Vec<u16> = Vec::new();
+        for _ in 0..n {
+            let id = if rng.chance(1, 12) && !ids.is_empty() {
+                *rng.pick(&ids) // duplicate body id: `find` takes the first
+            } else {
+                match rng.below(3) {
+                    0 => [101u16, 201, 301, 401, 501, 601, 701, 801, 901, 1001, 1101, 1201, 1301, 1401, 1501, 1601, 1701, 1801][rng.below(18) as usize],
+                    1 => rng.below(16) as u16,
+                    _ => rng.next() as u16,
+                }
+            };
+            ids.push(id);
+        }
+        // children lists for sibling links
+        let mut items = vec![String::new(); n];
+        let mut links = vec![String::new(); n];
+        for i in 0..n {
+            let sibs: Vec<usize> = (0..n).filter(|j| parent[*j] == parent[i]).collect();
+            let me = sibs.iter().position(|j| *j == i).unwrap();
+            let next_sib: u16 = match rng.below(10) {
+                0 => 0xFFFF,
+                1 => rng.below(n as u64) as u16,
+                _ => {
+                    if me + 1 < sibs.len() {
+                        link_pos[sibs[me + 1]] as u16
+                    } else if rng.chance(5, 6) {
+                        link_pos[sibs[0]] as u16 // ring
+                    } else {
+                        0xFFFF
+                    }
+                }
+            };
+            let first_child = (0..n).find(|j| parent[*j] == Some(i)).map(|j| link_pos[j] as u16).unwrap_or(0xFFFF);
+            let par = parent[i].map(|p| link_pos[p] as u16).unwrap_or(0xFFFF);
+            links[link_pos[i]] = format!("{}:{}:{}:{}", par, first_child, next_sib, item_pos[i]);
+            // now and then one block larger than 32 KiB, so that name offsets use the whole u16 range
+            let big = fi % 40 == 0 && i == n - 1;
+            let nb = if big {
+                rng.range(700, 1200)
+            } else {
+                match rng.below(6) {
+                    0 => 0,
+                    1 => 1,
+                    _ => rng.range(1, 5),
+                }
+            } as usize;
+            let bones: Vec<String> = (0..nb)
+                .map(|_| {
+                    let len = if big { rng.range(1, 2) } else { rng.range(1, 14) } as usize;
+                    let name: Vec<u8> = (0..len)
+                        .map(|_| match rng.below(8) {
+                            0 => rng.range(1, 127) as u8,
+                            1 => b'_',
+                            _ => rng.range(b'a' as u64, b'z' as u64) as u8,
+                        })
+                        .collect();
+                    let m: Vec<u32> = (0..12).map(|_| f32_edge(rng)).collect();
+                    format!("{}/{}", hex(&name), join(&m, ","))
+                })
+                .collect();
+            items[item_pos[i]] = format!("{}:{}:{}", ids[i], link_pos[i], join(&bones, "+"));
+        }
+        let it = items.join(";");
+        let lk = links.join(";");
+        // queries: every ordered pair for small forests, otherwise a sample; plus absent ids
+        let mut qs: Vec<(u16, u16)> = Vec::new();
+        if n <= 5 {
+            for a in 0..n {
+                for b in 0..n {
+                    qs.push((ids[a], ids[b]));
+                }
+            }
+        } else {
+            for _ in 0..8 {
+                let a = rng.below(n as u64) as usize;
+                // bias `to` towards an ancestor of `from`
+                let mut b = rng.below(n as u64) as usize;
+                if rng.chance(1, 2) {
+                    let mut cur = a;
+                    let hops = rng.below(4);
+                    for _ in 0..=hops {
+                        if let Some(p) = parent[cur] {
+                            cur = p;
+                        }
+                    }
+                    b = cur;
+                }
+                qs.push((ids[a], ids[b]));
+            }
+        }
+        qs.push((ids[rng.below(n as u64) as usize], 9999));
+        qs.push((9999, ids[0]));
+        let _ = fi;
+        for (a, b) in qs {
+            writeln!(out, "pbd {} {} {} {}", it, lk, a, b).unwrap();
+        }
+    }
+}
+
+pub fn generate(thorough: bool, seed: u64, out: &mut dyn Write) {
+    let mut rng = Rng::new(seed, "C16");
+    gen_cmp(&mut rng, out, if thorough { 1500 } else { 40 });
+    gen_tera(&mut rng, out, thorough);
+    gen_layer(&mut rng, out, if thorough { 20_000 } else { 900 });
+    gen_pbd(&mut rng, out, if thorough { 3000 } else { 120 });
+}
+
+// ------------------------------------------------------------------------------------------
+// run: the real code
+// ------------------------------------------------------------------------------------------
+
+fn pairs_u32(s: &str) -> Option<Vec<(u32, u32)>> {
+    if s == "-" {
+        return Some(vec![]);
+    }
+    s.split(',')
+        .map(|p| {
+            let (a, b) = p.split_once(':')?;
+            Some((a.parse().ok()?, b.parse().ok()?))
+        })
+        .collect()
+}
+
+fn show_plates(t: &physis::tera::Terrain) -> String {
+    let v: Vec<String> = t
+        .plates
+        .iter()
+        .map(|p| format!("{}:{}:{}", p.position.0.to_bits(), p.position.1.to_bits(), hex(p.filename.as_bytes())))
+        .collect();
+    format!("some {}", join(&v, ","))
+}
+
+fn terrain_of(ps: &[(u32, u32)]) -> physis::tera::Terrain {
+    physis::tera::Terrain {
+        plates: ps
+            .iter()
+            .map(|(x, y)| physis::tera::PlateModel {
+                position: (f32::from_bits(*x), f32::from_bits(*y)),
+                filename: String::new(),
+            })
+            .collect(),
+    }
+}
+
+fn show_group(g: &physis::layer::LayerGroup) -> String {
+    let mut s = String::from("some");
+    if g.chunks.len() != 1 {
+        return format!("some chunks={}", g.chunks.len());
+    }
+    let c = &g.chunks[0];
+    s.push_str(&format!(
+        " {} {} {} {}",
+        g.file_id,
+        c.chunk_id,
+        c.layer_group_id as u32,
+        hex(c.name.as_bytes())
+    ));
+    if !c.layers.is_empty() {
+        s.push_str(&format!(" layers={}", c.layers.len()));
+    }
+    s
+}
+
+fn group_of(f: &[&str]) -> Option<physis::layer::LayerGroup> {
+    let name = String::from_utf8(unhex(f[4])?).ok()?;
+    Some(physis::layer::LayerGroup {
+        file_id: f[1].parse().ok()?,
+        chunks: vec![physis::layer::LayerChunk {
+            chunk_id: f[2].parse().ok()?,
+            layer_group_id: f[3].parse::<u32>().ok()? as i32,
+            name,
+            layers: Vec::new(),
+        }],
+    })
+}
 
 pub fn run(case: &str, input: &str) -> String {
-    "unimplemented".to_string()
+    let f: Vec<&str> = input.split(' ').collect();
+    match (f[0], f.len()) {
+        ("cmp", 2) => {
+            let Some(bytes) = unhex(f[1]) else { return "bad-case".into() };
+            guarded(move || match physis::cmp::CMP::from_existing(&bytes) {
+                None => "none".into(),
+                Some(c) => {
+                    let rows: Vec<String> = c
+                        .parameters
+                        .iter()
+                        .map(|p| {
+                            let w = [
+                                p.male_min_size,
+                                p.male_max_size,
+                                p.male_min_tail,
+                                p.male_max_tail,
+                                p.female_min_size,
+                                p.female_max_size,
+                                p.female_min_tail,
+                                p.female_max_tail,
+                                p.bust_min_x,
+                                p.bust_min_y,
+                                p.bust_min_z,
+                                p.bust_max_x,
+                                p.bust_max_y,
+                                p.bust_max_z,
+                            ];
+                            join(&w.iter().map(|x| x.to_bits()).collect::<Vec<_>>(), ",")
+                        })
+                        .collect();
+                    format!("some {}", join(&rows, ";"))
+                }
+            })
+        }
+        ("tera_parse", 2) => {
+            let Some(bytes) = unhex(f[1]) else { return "bad-case".into() };
+            guarded(move || match physis::tera::Terrain::from_existing(&bytes) {
+                None => "none".into(),
+                Some(t) => show_plates(&t),
+            })
+        }
+        ("tera_rt", 2) => {
+            let Some(ps) = pairs_u32(f[1]) else { return "bad-case".into() };
+            guarded(move || {
+                let Some(buf) = terrain_of(&ps).write_to_buffer() else { return "none".into() };
+                match physis::tera::Terrain::from_existing(&buf) {
+                    None => "none".into(),
+                    Some(t) => show_plates(&t),
+                }
+            })
+        }
+        ("tera_write", 2) | ("tera_wany", 2) => {
+            let Some(ps) = pairs_u32(f[1]) else { return "bad-case".into() };
+            guarded(move || match terrain_of(&ps).write_to_buffer() {
+                None => "none".into(),
+                Some(b) => hex(&b),
+            })
+        }
+        ("layer_parse", 2) => {
+            let Some(bytes) = unhex(f[1]) else { return "bad-case".into() };
+            guarded(move || match physis::layer::LayerGroup::from_existing(&bytes) {
+                None => "none".into(),
+                Some(g) => show_group(&g),
+            })
+        }
+        ("layer_write", 5) => {
+            let Some(g) = group_of(&f) else { return "bad-case".into() };
+            guarded(move || match g.write_to_buffer() {
+                None => "none".into(),
+                Some(b) => format!("some {}", hex(&b)),
+            })
+        }
+        ("layer_rt", 5) => {
+            let Some(g) = group_of(&f) else { return "bad-case".into() };
+            guarded(move || {
+                let Some(b) = g.write_to_buffer() else { return "none".into() };
+                match physis::layer::LayerGroup::from_existing(&b) {
+                    None => "none".into(),
+                    Some(g) => show_group(&g),
+                }
+            })
+        }
+        ("pbd", 4) => {
+            let Some(bytes) = unhex(f[1]) else { return "bad-case".into() };
+            let (Ok(a), Ok(b)) = (f[2].parse::<u16>(), f[3].parse::<u16>()) else { return "bad-case".into() };
+            guarded(move || {
+                let Some(pbd) = physis::pbd::PreBoneDeformer::from_existing(&bytes) else { return "file-none".into() };
+                match pbd.get_deform_matrices(a, b) {
+                    None => "none".into(),
+                    Some(m) => {
+                        let v: Vec<String> = m
+                            .bones
+                            .iter()
+                            .map(|x| {
+                                format!(
+                                    "{}/{}",
+                                    hex(x.name.as_bytes()),
+                                    join(&x.deform.iter().map(|w| w.to_bits()).collect::<Vec<_>>(), ",")
+                                )
+                            })
+                            .collect();
+                        format!("some {}", join(&v, "+"))
+                    }
+                }
+            })
+        }
+        _ => "bad-case".into(),
+    }
 }
 
 pub fn dump(out: &mut dyn Write) {}
